@@ -106,7 +106,70 @@ func main() {
 func goEnv() []string {
 	env := os.Environ()
 	env = append(env, "GOFLAGS=-mod=mod", "GOPROXY=off", "GOSUMDB=off", "GOTOOLCHAIN=local", "VERIF_ROOT="+root)
+	if altTag() != "" {
+		env = append(env, "VERIF_NEWDIR="+newDir())
+	}
 	return env
+}
+
+// Experiments only (seeded changes, background sweeps): VERIF_REPO=<dir> makes
+// the checks build against another copy of biogo/hts instead of /repo. Such a
+// run keeps its binaries, shard output, evidence and new replays apart
+// (suffix -<tag>) and never writes evidence/<id>.json. The commands registered
+// in MANIFEST.json do not set it.
+func altRepo() string { return os.Getenv("VERIF_REPO") }
+
+func altTag() string {
+	if altRepo() == "" {
+		return ""
+	}
+	if t := os.Getenv("VERIF_TAG"); t != "" {
+		return t
+	}
+	return strings.Map(func(r rune) rune {
+		if r >= 'a' && r <= 'z' || r >= 'A' && r <= 'Z' || r >= '0' && r <= '9' {
+			return r
+		}
+		return '_'
+	}, filepath.Base(altRepo()))
+}
+
+func suffix() string {
+	if t := altTag(); t != "" {
+		return "-" + t
+	}
+	return ""
+}
+
+func newDir() string { return filepath.Join(root, "replays", "new"+suffix()) }
+
+// modfileArgs returns the -modfile flag for alternate-repository runs.
+func modfileArgs() ([]string, error) {
+	if altRepo() == "" {
+		return nil, nil
+	}
+	dir := filepath.Join(root, ".alt", altTag())
+	if err := os.MkdirAll(dir, 0o755); err != nil {
+		return nil, err
+	}
+	mod, err := os.ReadFile(filepath.Join(root, "go.mod"))
+	if err != nil {
+		return nil, err
+	}
+	abs, err := filepath.Abs(altRepo())
+	if err != nil {
+		return nil, err
+	}
+	alt := strings.Replace(string(mod), "=> /repo", "=> "+abs, 1)
+	if alt == string(mod) {
+		return nil, fmt.Errorf("go.mod has no replace of /repo")
+	}
+	if err := os.WriteFile(filepath.Join(dir, "go.mod"), []byte(alt), 0o644); err != nil {
+		return nil, err
+	}
+	sum, _ := os.ReadFile(filepath.Join(root, "go.sum"))
+	os.WriteFile(filepath.Join(dir, "go.sum"), sum, 0o644)
+	return []string{"-modfile=" + filepath.Join(dir, "go.mod")}, nil
 }
 
 func loadCfg(id string) propCfg {
@@ -130,9 +193,14 @@ func loadCfg(id string) propCfg {
 }
 
 func build(id string, cfg propCfg) (string, error) {
-	bin := filepath.Join(root, ".bin", id+".test")
+	bin := filepath.Join(root, ".bin", id+suffix()+".test")
 	os.MkdirAll(filepath.Dir(bin), 0o755)
 	args := []string{"test", "-c", "-tags", "verif", "-o", bin}
+	mf, err := modfileArgs()
+	if err != nil {
+		return "", err
+	}
+	args = append(args, mf...)
 	if cfg.Race {
 		args = append(args, "-race")
 	}
@@ -283,7 +351,7 @@ func run(id, tier, replay string) int {
 		return 0
 	}
 
-	out := filepath.Join(root, ".out", id)
+	out := filepath.Join(root, ".out", id+suffix())
 	os.RemoveAll(out)
 	os.MkdirAll(out, 0o755)
 	os.RemoveAll(filepath.Join(root, "props", strings.ToLower(id), "testdata", "rapid"))
@@ -396,7 +464,7 @@ func run(id, tier, replay string) int {
 			logb, _ := os.ReadFile(filepath.Join(out, fmt.Sprintf("log_%d.txt", i)))
 			cur := filepath.Join(out, fmt.Sprintf("cur_%d.json", i))
 			if cb, err := os.ReadFile(cur); err == nil && len(bytes.TrimSpace(cb)) > 0 && !r.timedOut {
-				dst := filepath.Join(root, "replays", "new", fmt.Sprintf("%s-died-s%s-%d.json", id, seed(), i))
+				dst := filepath.Join(newDir(), fmt.Sprintf("%s-died-s%s-%d.json", id, seed(), i))
 				os.MkdirAll(filepath.Dir(dst), 0o755)
 				os.WriteFile(dst, cb, 0o644)
 				v, o, ran := runReplay(bin, cfg, dst, 2*time.Minute)
@@ -428,7 +496,7 @@ func run(id, tier, replay string) int {
 			for ci, data := range crashers {
 				reproduced := false
 				for _, rt := range fz.ReplayTargets {
-					dst := filepath.Join(root, "replays", "new", fmt.Sprintf("%s-fuzz-%s-%s-%d.json", id, fz.Target, rt, ci))
+					dst := filepath.Join(newDir(), fmt.Sprintf("%s-fuzz-%s-%s-%d.json", id, fz.Target, rt, ci))
 					os.MkdirAll(filepath.Dir(dst), 0o755)
 					cj, _ := json.MarshalIndent(map[string]any{"property": id, "sub": "mutated_encodings", "message": "input found by go test -fuzz " + fz.Target,
 						"case": map[string]any{"Target": rt, "Seed": 0, "Muts": nil, "Cram": nil, "Raw": fmt.Sprintf("%x", data)}}, "", " ")
@@ -538,9 +606,13 @@ func run(id, tier, replay string) int {
 		"wall_s":      time.Since(start).Seconds(),
 		"violations":  len(viols),
 	}
-	os.MkdirAll(filepath.Join(root, "evidence"), 0o755)
 	eb, _ := json.MarshalIndent(ev, "", " ")
-	os.WriteFile(filepath.Join(root, "evidence", id+".json"), eb, 0o644)
+	if altTag() != "" {
+		os.WriteFile(filepath.Join(out, "evidence.json"), eb, 0o644)
+	} else {
+		os.MkdirAll(filepath.Join(root, "evidence"), 0o755)
+		os.WriteFile(filepath.Join(root, "evidence", id+".json"), eb, 0o644)
+	}
 
 	for _, l := range knownLines {
 		fmt.Println(l)
@@ -568,7 +640,7 @@ func run(id, tier, replay string) int {
 			fmt.Printf("VIOLATION property=%s replay=%s\n", id, v.Replay)
 		}
 		if shown > 8 {
-			fmt.Printf("  (%d further distinct violation reports not shown; see %s)\n", shown-8, filepath.Join(root, "replays", "new"))
+			fmt.Printf("  (%d further distinct violation reports not shown; see %s)\n", shown-8, newDir())
 		}
 		return 1
 	}
@@ -593,7 +665,12 @@ func runFuzz(id, target, dur string) (uint64, [][]byte, string, error) {
 	pkg := "./props/" + strings.ToLower(id)
 	dir := filepath.Join(root, "props", strings.ToLower(id), "testdata", "fuzz", target)
 	os.RemoveAll(dir)
-	cmd := exec.Command("go", "test", "-tags", "verif", "-run", "^$", "-fuzz", "^"+target+"$", "-fuzztime", dur, pkg)
+	fargs := []string{"test", "-tags", "verif"}
+	if mf, err := modfileArgs(); err == nil {
+		fargs = append(fargs, mf...)
+	}
+	fargs = append(fargs, "-run", "^$", "-fuzz", "^"+target+"$", "-fuzztime", dur, pkg)
+	cmd := exec.Command("go", fargs...)
 	cmd.Dir = root
 	cmd.Env = goEnv()
 	out, err := cmd.CombinedOutput()
